@@ -77,6 +77,12 @@ def specDump (L : List Region) : String :=
 def pickOk (cands : List Region) (nilOk : Bool) (p : String) : Bool :=
   if p = "nil" then nilOk else cands.any (fun r => toString r.id = p)
 
+/-- the same for the model, whose sub-trees can (after malformed input) hold an orphaned item with an old
+    RegionInfo: such a candidate is reported as `id~stale`, as the harness does -/
+def pickOkModel (s : RegionsInfo) (cands : List Region) (nilOk : Bool) (p : String) : Bool :=
+  if p = "nil" then nilOk else
+    cands.any (fun r => (if getRegion s r.id = some r then toString r.id else s!"{r.id}~stale") = p)
+
 def renderCands (cands : List Region) (nilOk : Bool) : String :=
   s!"cands={renderIds cands} nil={nilOk}"
 
@@ -106,8 +112,11 @@ def answer (d : DState) (ws : List String) (impl : String) : Option (String × S
     some (s!"{totalSize s} {averageRegionSize s}",
           s!"{C07.sumSize L} {if L.length = 0 then (0 : Int) else Int.tdiv (C07.sumSize L) (L.length : Int)}")
   | ["sregions", st] =>
-    some (renderIds (storeRegions s (natArg st)),
-          renderIds (C07.storeRegions L .leader (natArg st) ++ C07.storeRegions L .follower (natArg st)
+    -- the objects handed out: id/size/version.confver, i.e. the currently served RegionInfo of each id
+    let ro := fun (l : List Region) =>
+      joinOr (l.map (fun r => s!"{r.id}/{r.size}/{r.version}.{r.confVer}"))
+    some (ro (storeRegions s (natArg st)),
+          ro (C07.storeRegions L .leader (natArg st) ++ C07.storeRegions L .follower (natArg st)
             ++ C07.storeRegions L .learner (natArg st)))
   | ["dump"] => some (renderDump s, specDump L)
   | ["rand", role, st, ranges, k] =>
@@ -122,7 +131,9 @@ def answer (d : DState) (ws : List String) (impl : String) : Option (String × S
     -- (a given candidate is missed with probability < (11/12)^200 < 3e-8)
     let full := natArg k ≥ 200 && (C07.storeRegions L role (natArg st)).length ≤ 6 && rg.length ≤ 2
     let seen := fun (c : Region) => picks.any (fun p => p = toString c.id)
-    some (if picks.all (pickOk mc mn) && (!full || mc.all seen) then impl else renderCands mc mn,
+    let seenM := fun (c : Region) =>
+      picks.any (fun p => p = (if getRegion s c.id = some c then toString c.id else s!"{c.id}~stale"))
+    some (if picks.all (pickOkModel s mc mn) && (!full || mc.all seenM) then impl else renderCands mc mn,
           if picks.all (pickOk sc sn) && (!full || sc.all seen) then impl else renderCands sc sn)
   | _ => none
 
@@ -172,6 +183,28 @@ def step (d : DState) (opLine : String) (impl : String) : DState × StepOut :=
   else
   match words opLine with
   | ["reset"] => ({}, { model := "ok" })
+  | "bounce" :: _reads :: leaderB :: spec =>
+    match parseHeartbeat spec with
+    | none => (d, { model := "bad-op" })
+    | some hb =>
+      -- PutRegion(leader on A) first, the writer ends with PutRegion(leader on B) ; PutRegion(leader on A); the reader must have seen one
+      -- value only for each per-store count / size: a leader transfer never changes them
+      let rA := regionFromHeartbeat hb
+      let rB := { rA with leader := natArg leaderB }
+      let stOf := fun (r : Region) => ((r.peers.find? (fun p => p.id = r.leader)).map (·.store)).getD 0
+      let (a, b) := (stOf rA, stOf rB)
+      let s' := (setRegion (setRegion (setRegion d.model rA).1 rB).1 rA).1
+      let L' := C07.put (C07.put (C07.put d.spec rA) rB) rA
+      let cnt := fun (L : List Region) (st : Nat) =>
+        C07.storeCount L .leader st + C07.storeCount L .follower st + C07.storeCount L .learner st
+      let siz := fun (L : List Region) (st : Nat) =>
+        C07.storeSize L .leader st + C07.storeSize L .follower st + C07.storeSize L .learner st
+      let m := s!"stores={a},{b} count={storeRegionCount s' a} size={storeRegionSize s' a} count={storeRegionCount s' b} size={storeRegionSize s' b}"
+      let sp := s!"stores={a},{b} count={cnt L' a} size={siz L' a} count={cnt L' b} size={siz L' b}"
+      let dirty := d.dirty || !decide (C07.WF rA)
+      let fails := if dirty || sp = impl then [] else
+        [s!"sig=C07.store-count-torn-under-leader-transfer region={rA.id} expected={sp} got={impl}"]
+      ({ d with model := s', spec := L', dirty := dirty }, { model := if d.chaos then impl else m, fails := fails })
   | "bt" :: rest =>
     let (l, out) := btStep d.bt rest
     ({ d with bt := l }, { model := out })
@@ -213,8 +246,10 @@ def step (d : DState) (opLine : String) (impl : String) : DState × StepOut :=
     | none => (d, { model := "bad-op" })
     | some (m, sp) =>
       let panicked := ws.head? = some "rand" && (impl.splitOn ",").any (· = "panic")
+      let stale := ws.head? = some "rand" && (impl.splitOn ",").any (fun p => p.endsWith "~stale")
       let fails := if d.dirty || sp = impl then [] else
-        if panicked then [s!"sig=C07.random-pick-panicked op={" ".intercalate (ws.take 4)} expected={sp} got={impl}"]
+        if stale then [s!"sig=C07.random-pick-returned-stale-region op={" ".intercalate (ws.take 4)} got={impl}"]
+        else if panicked then [s!"sig=C07.random-pick-panicked op={" ".intercalate (ws.take 4)} expected={sp} got={impl}"]
         else [s!"{sigOf ws} expected={sp} got={impl}"]
       (d, { model := if d.chaos then impl else m, fails := fails })
 
